@@ -65,7 +65,7 @@ func myInsertStmt(names []string, id int, plain string, vals []string, cols []co
 
 func myColWorld(w *kernel.World, plan *kernel.Plan, rng *kernel.RNG, cols []colKind) (*PgWorld, []string, error) {
 	pw, err := NewPgWorld(w, rng, PgWorldConfig{SchemaYAML: schemaYAML(cols), Clients: []string{owner, stranger}, ChunkMode: int(plan.Sw("chunk")),
-		MySQL: true, MyDeprecateEOF: plan.Sw("depeof") == 1, KeyFaultNth: int(plan.Sw("keyfault")), KeystoreV2: plan.Sw("ksv2") == 1})
+		MySQL: true, MyDeprecateEOF: plan.Sw("depeof") == 1, KeyFaultNth: int(plan.Sw("keyfault")), KeystoreV2: plan.Sw("ksv2") == 1, TokenFaultNth: int(plan.Sw("tokfault"))})
 	if err != nil {
 		return nil, nil, err
 	}
@@ -196,6 +196,10 @@ func c04MySQL(t *testing.T, plan *kernel.Plan, keepLog bool) *kernel.Result {
 		if keyFault {
 			w.Res.Fired["keystore-io-error"]++
 		}
+		if pw.TokenFaultFired() {
+			w.Res.Fired["token-store-io-error"]++
+			keyFault = true
+		}
 		if (run.Stuck || run.ClientErr != "") && !keyFault {
 			w.Violate("C04", "session-makes-progress", "mysql", fmt.Sprintf("stuck=%v after %d deliveries; client error %q; proxy errors %v", run.Stuck, run.Steps, run.ClientErr, run.ProxyErrs))
 			return
@@ -204,7 +208,11 @@ func c04MySQL(t *testing.T, plan *kernel.Plan, keepLog bool) *kernel.Result {
 		for _, m := range protectedMarks {
 			for name, enc := range encodings(m) {
 				if bytes.Contains(toDB, enc) {
-					w.Violate("C04", "no-plaintext-to-database", "mysql/"+name, fmt.Sprintf("the database-side stream contains protected value %q (%s form)", m, name))
+					site := "mysql/" + name
+					if pw.TokenFaultFired() {
+						site = "mysql/token-store-fault"
+					}
+					w.Violate("C04", "no-plaintext-to-database", site, fmt.Sprintf("the database-side stream contains protected value %q (%s form)", m, name))
 					break
 				}
 			}
